@@ -248,6 +248,10 @@ func (r *runner) run(ctx context.Context, isStream bool, input any, opts ...Opti
 		if result != nil {
 			return result, nil
 		}
+		// the direct successors of START are subject to interrupt-before like any other node
+		if hit := getHitKey(nextTasks, r.interruptBeforeNodes); len(hit) > 0 {
+			return nil, r.handleInterrupt(ctx, hit, nil, nextTasks, cm.channels, isStream, isSubGraph, checkPointID)
+		}
 	} else {
 		ctx, input = onGraphStart(ctx, input, isStream)
 		haveOnStart = true
